@@ -75,6 +75,7 @@ class Contract(Unit):
     loop_specs = ()
     inline = ()
     path_budget = 3000
+    assume_ensures_at_call_sites = True
     has_body = True            # False: assumed contract of an external / unverified function
 
     # ---- to be provided
@@ -132,8 +133,9 @@ class Contract(Unit):
             if interp.truth(cond):
                 raise RaiseSig(cls())
         res = self.fresh_result(c, **b)
-        for name, cond in self.ensures(c, res, **b):
-            c.assume(cond)
+        if self.assume_ensures_at_call_sites:
+            for name, cond in self.ensures(c, res, **b):
+                c.assume(cond)
         c.calls_log.append((self.target, b, res))
         return res
 
